@@ -318,7 +318,10 @@ func Universe(o UniverseOpts) *Schema {
 		{Kind: KObject, Name: "Mutation", Fields: []*FieldDef{
 			m("set", N("String"), &ArgDef{Name: "s", Type: NN(N("String"))}), f("a", N("A")), f("i", N("Int")),
 		}},
-		{Kind: KInterface, Name: "Named", Fields: []*FieldDef{f("name", N("String")), f("i", N("Int")), f("kid", N("A")), m("echo", N("String"), echoArgs()...), f("buddy", N("Named")), f("nick", N("String"))}},
+		{Kind: KInterface, Name: "Named", Fields: []*FieldDef{f("name", N("String")), f("i", N("Int")), f("kid", N("A")), m("echo", N("String"), echoArgs()...), f("buddy", N("Named")), f("nick", N("String")),
+			// rev: the Go method takes (y, x); under reflection only an explicit RegisterField order makes it right, and that order
+			// is the implementing object's, not the interface's
+			m("rev", N("String"), &ArgDef{Name: "x", Type: N("String")}, &ArgDef{Name: "y", Type: N("String")})}},
 		obj("A"), obj("B"), obj("C"),
 		{Kind: KObject, Name: "V", Fields: []*FieldDef{f("id", N("ID")), f("vid", N("String")), m("vm", N("String"))}},
 		{Kind: KUnion, Name: "AB", Members: members},
